@@ -15,6 +15,20 @@ Oracle (model-free: python integers/Fractions and scipy only, never the Lean mod
 checks of 'r' and 'n', 'c' against the exact binomial sum, 'p' inverts 'c', mutual consistency of the
 query forms, scalar == broadcast; ksingle = nct.ppf(c, n-1, z_p sqrt n)/sqrt n and its defining
 cdf equation, kdouble's two coverage equations, monotone in p and c, limit n -> oo.
+
+Extension (public entry points, root finders, constants):
+  * translator harness/translate/c20_stats.py -> Generated/C20Stats.lean: constants / switch points / branch and
+    np.broadcast argument orders / effect skeletons of every function, checked by `decide` in Props/C20Api.lean;
+  * stream `api` (exact): order_stats as a whole against Model/OrderStatsApi.lean — `which` strings, absent arguments
+    (None), broadcasting order and shape, python-int / numpy-scalar / array packaging, TypeError / ValueError kinds, the
+    'p' answers against the rational bisection `pQuery` (2^-41), argument arrays unchanged;
+  * streams `ksingle-array`, `kdouble-array`, `getr-loop` (Float): Model/KFactorApi.lean run with the kernel values the
+    implementation itself asked for (stats.norm is wrapped by a recorder during the call); values to 1e-12 / 1e-10 and
+    the number of Newton passes exactly;
+  * oracle items `apicall`, `kcall` (elementwise = scalar calls, shape = numpy's broadcast shape, arguments unchanged,
+    invalid `which` / missing arguments raise), `proot` (sign change within brentq's tolerance, exact arithmetic),
+    `newton` (convergence below the cap; hypotheses and conclusions of newton_monotone_convex), `nctasym`, `kge`
+    (hypotheses / conclusions of ksingle_tendsto, ksingle_ge_normal).
 """
 import json
 import math
@@ -52,50 +66,90 @@ THEOREMS = [
 TRUSTED = [
     "scipy.stats norm/nct/chi2 satisfy KFactor.Spec (strictly increasing cdf, ppf its inverse on (0,1), nct "
     "stochastically increasing in its non-centrality); residuals of the resulting equations are measured every run",
+    "the three added hypotheses, each measured by the oracle on every run: the residual of _getr is concave on R >= 0 "
+    "(tangent inequality; newton_monotone_convex); NctAsym: the nct quantile stays within B_c (1 + |nc|/sqrt df) of nc and "
+    "P(T <= nc) <= 1/2 for nc >= 0 (ksingle_tendsto, ksingle_ge_normal)",
     "scipy.stats.binom.ppf/sf, scipy.special.betainc and brentq+ceil compute the exact-arithmetic quantities of "
     "Model/OrderStats.lean away from ties (|confidence - c| >= 1e-9); measured by exact comparison every run",
     "the continuous extension n -> betainc(r, n-r+1, q) is increasing, so ceil(root) is the least integer meeting c",
+    "brentq returns a point inside a sign-change bracket of width <= xtol + rtol |x| (scipy defaults 2e-12, 4 eps; the "
+    "calls in stats.py pass no tolerances: checked by the translator); the oracle checks the sign change in exact arithmetic",
+    "numpy: np.broadcast iterates in C order over the broadcast shape, `out.flat = list` fills in C order, ufunc calls "
+    "broadcast their arguments; np.asarray of an ndarray returns the same object; the whitelisted numpy/scipy calls of "
+    "harness/translate/c20_stats.py return new objects (the effect skeleton is what arguments_unchanged is about)",
     "Drivers/C20.lean evaluates the polymorphic model at an unreduced-fraction instance; a subsample is re-evaluated "
     "at core Rat (the instance the theorems specialise to) and must agree exactly",
-    "correspondence harness harness/props/c20.py",
+    "correspondence harness harness/props/c20.py, translator harness/translate/c20_stats.py (Python ast, no execution)",
 ]
 RULE = (
     "p and c are short decimals (2-4 digits) read as exact rationals, n in 1..3000 (quick) / 1..40000 (thorough), "
     "r in 1..40; a case is one call of order_stats('r'|'n'|'c') or of ksingle/kdouble/_getr compared with the Lean "
     "model; non-trivial = the answer is not the default (rank >= 1, n > r or the n = r boundary, 0 < conf < 1, "
     "every k-factor case); distinct by (which, p, c, n, r); ties (|confidence - c| < 1e-9 at the decisive integer) "
-    "are skipped and counted"
+    "are skipped and counted.  Entry-point cases (`api`, `ksingle-array`, `kdouble-array`, `getr-loop`): the whole decision "
+    "table (8 `which` strings x 16 subsets of absent arguments) plus random calls whose three read arguments have shapes "
+    "drawn from one broadcast target (rank 0-3, extents 0-4, 12 % made incompatible), 6 % of read arguments absent, the "
+    "asked-for argument given in 25 %, values handed over as python scalars / numpy scalars / 0-d arrays / nested lists / "
+    "tuples / C-, F-ordered and strided arrays of int64, int32, float64; tol of kdouble in {1e-14 .. 1e-3}; non-trivial = "
+    "a value with at least one element comes back; Newton steps within 0.1 % of tol make the pass count undecidable in "
+    "floating point: skipped and counted"
 )
 ASSUMPTIONS = [
     "0 < p < 1, 0 < c < 1, r >= 1, n >= 1 (k-factors: n >= 2)",
     "order_stats('n'): the answer does not exceed r * 2**31 (beyond that the code raises ValueError; theorem n_total)",
     "float evaluation decides confidence comparisons correctly when |confidence - c| >= 1e-9",
+    "integer arguments are python ints or arrays of at least 32 bits (with 8/16-bit arrays the code computes in that "
+    "width: see the families *-narrow-int-* reported by the oracle)",
 ]
 PARTIAL = (
-    "partial: the order-statistics half is proved outright (all linearly ordered fields); the k-factor half is proved "
-    "relative to KFactor.Spec (Lean has no executable erf / non-central t / chi-square, so the cdfs are abstract "
-    "parameters) and convergence of the Newton loop in _getr is not proved (only: it stops exactly at solutions); "
-    "the limit n -> oo of the k-factors (k -> z_p from above for c >= 0.5) is checked by the oracle only (the "
-    "order-statistics limit, confidence -> 1 as n grows, is proved: confidence_eventually, n_exists); the 'p' query is covered by "
-    "tail_monotone_q (uniqueness/extremality of the root) and the oracle, its brentq solve is not modelled"
+    "partial: the order-statistics half is proved outright (all linearly ordered fields), now including the public entry "
+    "point (dispatch, absent arguments, broadcasting, result packaging: exact correspondence) and the 'p' query (exactly one "
+    "root in (0,1) over the reals; bracketing solvers are within their bracket width of it; brentq itself is trusted to "
+    "return a point inside a sign-change bracket of its documented width, which the oracle checks in exact arithmetic). "
+    "The k-factor half is proved relative to KFactor.Spec (Lean has no executable erf / non-central t / chi-square, so the "
+    "cdfs are abstract parameters).  Still not proved: (1) that _getr's Newton loop stops within MAXLOOPS = 100 passes — "
+    "proved is: under the measured concavity hypothesis the iterates are monotone and bounded from the first one on and the "
+    "stopping test is reached after finitely many passes for every tol > 0 (no quadratic rate, so no bound by 100), and only "
+    "for one element (the vectorised any() test over several elements is modelled and tied, its termination follows "
+    "elementwise but is not stated); (2) the n -> oo limit of kdouble (needs continuity of the normal quantile and the "
+    "chi-square asymptotics): oracle only; the limit of ksingle (k -> z_p, from above for c >= 1/2) is proved relative to "
+    "Spec extended by the two measured clauses NctAsym; (3) composition of the nested binary broadcasts inside kdouble into "
+    "the ternary broadcast of the model (tied by the exact shape/value stream, not proved)"
 )
 MANIFEST = {
     "level_text": "Proof (Lean 4, kernel-checked, standard axioms only). Order statistics: an exact model of "
     "order_stats('c'|'r'|'n') over any linearly ordered field; the confidence is the upper binomial sum (tail_def), "
-    "obeys the Pascal recurrence, is antitone in r, monotone in n and in 1-p; the returned rank is extremal "
-    "(c < conf(k) <-> k <= rank; rank+1 fails), the returned sample size is extremal (c <= conf(m) <-> n <= m, "
-    "including the n = r boundary of finding F10), the ValueError branch is reached only beyond r*2^31, and the query "
-    "forms are mutually consistent; exact ties are characterised (tie_example). The model is tied to the code by exact "
-    "integer correspondence on short-decimal inputs. k-factors: ksingle/kdouble/_getr written against abstract "
-    "distribution kernels; from the specification 'strictly increasing cdf, ppf its inverse' the defining probability "
-    "equations and strict monotonicity in p and c are proved; the same Lean expressions are executed at Float with "
-    "scipy supplying kernel values and compared with the code.",
-    "level_note": "Partial for the k-factor half: relative to the stated specification of scipy's norm/nct/chi2 "
-    "(trusted numerics, residuals measured each run); Newton convergence and the n -> oo limit are oracle-checked only. "
-    "Trusted: Lean kernel; propext, Classical.choice, Quot.sound; the Python harness; scipy binom/betainc/brentq away "
-    "from ties.",
+    "obeys the Pascal recurrence, is antitone in r, monotone in n and in 1-p (strictly inside (0,1): tail_strictMono_q); "
+    "the returned rank is extremal (c < conf(k) <-> k <= rank; rank+1 fails), the returned sample size is extremal "
+    "(c <= conf(m) <-> n <= m, including the n = r boundary of finding F10), the ValueError branch is reached only beyond "
+    "r*2^31, and the query forms are mutually consistent; exact ties are characterised (tie_example). The 'p' query has "
+    "exactly one answer in (0,1) for 1 <= r <= n (p_query_exists_unique: intermediate value theorem for the confidence "
+    "polynomial), raises exactly otherwise (p_query_defined_iff), and any bracketing solver is within its bracket width of "
+    "that answer (bisect_brackets_root, p_query_bracket). The public entry point is modelled as a whole: decision logic on "
+    "`which`, absent arguments, the ignored asked-for argument (order_stats_dispatch, order_stats_absent), numpy "
+    "broadcasting (order_stats_broadcast_*: shape = broadcast shape, element [idx] = scalar answer of the clipped index; "
+    "order_stats_scalar: scalar kinds), and no function of stats.py writes a caller's buffer (arguments_unchanged + "
+    "stats_effects_safe on effect skeletons regenerated from the source). The constants and switch points of stats.py "
+    "(doubling factor and limit, brentq brackets, MAXLOOPS, starting point, default tol, branch order, np.broadcast "
+    "argument orders) are regenerated into Generated/C20Stats.lean on every run and checked by `decide` "
+    "(stats_consts_tie, order_stats_dispatch_tie). k-factors: ksingle/kdouble/_getr written against abstract distribution "
+    "kernels; from the specification 'strictly increasing cdf, ppf its inverse' the defining probability equations and "
+    "strict monotonicity in p and c are proved; ksingle/kdouble on arrays are the scalar formulas elementwise with ONE "
+    "Newton pass count per call (kfactor_elementwise_*); Newton's iterates in _getr are monotone and bounded after the "
+    "first step and reach the stopping test for every tol > 0 (newton_monotone_convex, under a measured concavity "
+    "hypothesis); ksingle -> z_p as n -> oo with an explicit rate, from above for c >= 1/2 (ksingle_tendsto, "
+    "ksingle_ge_normal, under two measured clauses on the nct quantile). All models are tied to the code by exact "
+    "integer/rational correspondence (order statistics, packaging) and by Float execution of the same Lean expressions "
+    "with scipy supplying kernel values (k-factors, the whole Newton loop with its pass count).",
+    "level_note": "Partial for the k-factor half: relative to the stated specification of scipy's norm/nct/chi2 and three "
+    "measured hypotheses (concavity of the _getr residual on R >= 0, two nct clauses); not proved: a bound <= MAXLOOPS on "
+    "the Newton pass count, the n -> oo limit of kdouble (oracle only). Trusted: Lean kernel; propext, Classical.choice, "
+    "Quot.sound; the Python harness and translator; numpy's broadcasting/aliasing semantics as stated in TRUSTED; scipy "
+    "binom/betainc/brentq away from ties.",
     "technique": "Lean 4 proof (Pascal-recurrence induction, loop invariants for the scan/doubling/bisection searches, "
-    "order-theoretic arguments from an abstract cdf specification) + exact differential correspondence with pyyeti.stats",
+    "stride/ravel induction for broadcasting, a taint analysis proved sound for the effect skeletons, intermediate value "
+    "theorem, order-theoretic Newton argument, squeeze for the limit) + translator for constants and effect skeletons "
+    "(decide-checked) + exact differential correspondence with pyyeti.stats",
 }
 
 TIE = 1e-9
